@@ -179,7 +179,9 @@ func (m *MonC10) evalPerp(ctx sdk.Context, owner string, id uint64) perpCond {
 	long := mtp.Position == perpetualtypes.Position_LONG
 	sl, tp := mtp.StopLossPrice, mtp.TakeProfitPrice
 	slHit, tpHit, slNear, tpNear := false, false, false, false
-	if !sl.IsNil() {
+	// a stop-loss price of zero means "not set" (the chain's own convention: MsgOpen replaces it,
+	// MsgUpdateStopLoss skips its checks for it)
+	if !sl.IsNil() && sl.IsPositive() {
 		if long {
 			slHit, slNear = c.price.LTE(sl), c.price.LTE(sl.Mul(margin))
 		} else {
